@@ -4,9 +4,10 @@ T = "Kani/CBMC bounded model checking of the real code (symbolic inputs, SAT), n
 
 CLAIMED = {
     "C02": {"design_ref": "5/C02", "technique": T,
-            "text": "Solver-decided for the quantifier reduction only: any() = some element true, all() = every element true, "
-                    "all() of the empty sequence true, for every boolean sequence up to 4 elements. Indexing, map-each, "
-                    "flattening, element-wise logic and truncation are NOT covered (LhsValue containers in compiled closures)."},
+            "text": "Solver-decided kernels: the quantifier reduction (any() = some element true, all() = every element true, all() of "
+                    "the empty sequence true, every boolean sequence up to 4 elements) and `[n]` on an array of up to 3 elements "
+                    "(the n-th element iff n < len, every n up to u32::MAX). Nested paths, map keys, map-each, flattening, "
+                    "element-wise logic and truncation are NOT covered (heap-backed LhsValue containers in compiled closures)."},
     "C07": {"design_ref": "5/C07", "technique": T,
             "text": "Solver-decided for the C-API hash writer only: it forwards exactly the bytes written, in order, whatever the chunking (so the hash depends only on the JSON bytes), and one FNV step separates different bytes. The alias tables, whitespace independence, the JSON documents and flattening are NOT covered (lexer/AST/serde code is out of CBMC's reach here) - this is a thin claim."},
     "C12": {"design_ref": "5/C12", "technique": T,
